@@ -33,8 +33,8 @@ theorem c03_accepts_partial (w : Wire) (hw : w.WF = true) (hr : w.reserved = fal
   · simpa [hu] using hdrUnmarshal_encode w r.header hok
 
 /-- the same as the predicate the driver evaluates on the real code (`c03.wire`, sentence 1) -/
-theorem c03_accepts_pred (w : Wire) (hw : w.WF = true) (hr : w.reserved = false) :
-    Pred.C03.acceptsOK w (Pred.C03.modelObs w.encode) = true := by
+theorem c03_accepts_pred (w : Wire) (hw : w.WF = true) (hr : w.reserved = false) (qs : List UInt8) :
+    Pred.C03.acceptsOK w (Pred.C03.modelObs w.encode qs) = true := by
   have hok := wireOk_of_WF w hw
   have hu := wireUnread_of_not_reserved w hr
   have h1 := pktUnmarshal_encode w {} hok hu
@@ -79,7 +79,7 @@ theorem c03_remarshal (r : Packet) (buf : Bytes) (p : Packet) (h : pktUnmarshal 
 
 /-- the same as the predicate the driver evaluates on the real code (`c03.mut`, and the second
     conjunct of `c03.wire`): every byte string -/
-theorem c03_remarshal_pred (buf : Bytes) : Pred.C03.mutOK (Pred.C03.modelObs buf) = true := by
+theorem c03_remarshal_pred (buf : Bytes) (qs : List UInt8) : Pred.C03.mutOK (Pred.C03.modelObs buf qs) = true := by
   simp only [Pred.C03.mutOK, Pred.C03.remarshalOK, Pred.C03.modelObs]
   cases hu : pktUnmarshal {} buf with
   | err e => simp [Res.map, Res.coarse]
@@ -135,14 +135,25 @@ theorem c03_canonical (w : Wire) (h : w.canonical = true) : pktMarshal w.toPacke
   have henc := pktUnmarshal_out {} w.encode w.toPacket hun hpad
   rw [pktMarshal_ofPacket _ henc, ofPacket_toPacket w h]
 
+/-- sentence (1) through the public accessors: `GetExtensionIDs` lists the elements in wire order,
+    `GetExtension q` returns the first element with id `q` (nil when there is none), for any queries -/
+theorem c03_accessors_pred (w : Wire) (hw : w.WF = true) (hr : w.reserved = false) (qs : List UInt8) :
+    Pred.C03.accessorsOK w qs (Pred.C03.modelObs w.encode qs) = true := by
+  have hok := wireOk_of_WF w hw
+  have hu := wireUnread_of_not_reserved w hr
+  have h1 := pktUnmarshal_encode w {} hok hu
+  simp only [Pred.C03.accessorsOK, Pred.C03.modelObs, h1, Bool.and_eq_true, beq_iff_eq]
+  exact accessors_hdrOf w {} qs hr
+
 /-- the whole predicate of `c03.wire` on the model's observation, outside the known-finding region -/
-theorem c03_wire_pred (w : Wire) (hw : w.WF = true) (hr : w.reserved = false) :
-    Pred.C03.wire w w.encode (Pred.C03.modelObs w.encode) = true := by
-  have h1 := c03_accepts_pred w hw hr
-  have h2 := c03_remarshal_pred w.encode
+theorem c03_wire_pred (w : Wire) (hw : w.WF = true) (hr : w.reserved = false) (qs : List UInt8) :
+    Pred.C03.wire w w.encode qs (Pred.C03.modelObs w.encode qs) = true := by
+  have h1 := c03_accepts_pred w hw hr qs
+  have h2 := c03_remarshal_pred w.encode qs
+  have h3 := c03_accessors_pred w hw hr qs
   simp only [Pred.C03.mutOK] at h2
-  simp only [Pred.C03.wire, h1, h2, hw, Bool.not_true, Bool.false_or, Bool.true_and, Bool.or_eq_true,
-    Bool.not_eq_true', Pred.C03.canonOK, beq_iff_eq]
+  simp only [Pred.C03.wire, h1, h2, h3, hw, Bool.not_true, Bool.false_or, Bool.true_and, Bool.or_eq_true,
+    Bool.not_eq_true', Pred.C03.canonOK, beq_iff_eq, Bool.and_self]
   by_cases hc : w.canonical = true
   · right
     have hun := pktUnmarshal_encode w {} (wireOk_of_WF w hw) (wireUnread_of_not_reserved w hr)
@@ -265,8 +276,8 @@ theorem c03_reserved_id_witness : ¬ c03_accepts_full := by
   exact absurd this (by decide)
 
 /-- and the predicate the driver evaluates fails on the model's observation of that input -/
-theorem c03_reserved_id_pred :
-    Pred.C03.acceptsOK reservedWire (Pred.C03.modelObs reservedWire.encode) = false := by
+theorem c03_reserved_id_pred (qs : List UInt8) :
+    Pred.C03.acceptsOK reservedWire (Pred.C03.modelObs reservedWire.encode qs) = false := by
   have h := c03_reserved_id_model.1
   simp only [Pred.C03.acceptsOK, Pred.C03.modelObs, h, Res.map, Res.coarse]
   rw [Bool.and_eq_false_iff]; right
@@ -280,8 +291,8 @@ theorem c03_reserved_region_offset (w : Wire) (hw : w.WF = true) (hr : w.reserve
   obtain ⟨h1, h2⟩ := wireUnread_reserved w hw hr
   exact ⟨_, hdrUnmarshal_encode w r (wireOk_of_WF w hw), by omega⟩
 
-theorem c03_reserved_region_fails (w : Wire) (hw : w.WF = true) (hr : w.reserved = true) :
-    Pred.C03.acceptsOK w (Pred.C03.modelObs w.encode) = false := by
+theorem c03_reserved_region_fails (w : Wire) (hw : w.WF = true) (hr : w.reserved = true) (qs : List UInt8) :
+    Pred.C03.acceptsOK w (Pred.C03.modelObs w.encode qs) = false := by
   obtain ⟨n, h1, h2⟩ := c03_reserved_region_offset w hw hr {}
   simp only [Pred.C03.acceptsOK, Pred.C03.modelObs, h1, Res.map, Res.coarse]
   rw [Bool.and_eq_false_iff]; right
